@@ -376,10 +376,14 @@ class Ctx:
 
 
 def load_known() -> list[dict]:
+    """known_findings.json (committed, never written at run time)."""
+    out = []
     p = VERIF / "known_findings.json"
-    if not p.exists():
-        return []
-    return json.loads(p.read_text()).get("findings", [])
+    if p.exists():
+        out += json.loads(p.read_text()).get("findings", [])
+    for frag in sorted((VERIF / "known_findings.d").glob("*.json")):
+        out += json.loads(frag.read_text()).get("findings", [])
+    return out
 
 
 def finish(ctx: Ctx, search=None) -> int:
